@@ -9,7 +9,7 @@ EXPLANATION = ("Deductive: find_root (returns (x, f(x)); ZeroDivisionError only 
 
 
 def units(tier):
-    return ([A.U_FIND_ROOT] + A.U_DECAY_TIME + [A.U_DECAY_TIME_EMPTY, A.L_DF]) + ACTV.U_SAMPLE_INIT
+    return ([A.U_FIND_ROOT] + A.U_DECAY_TIME + [A.U_DECAY_TIME_EMPTY, A.L_DF]) + ACTV.U_SAMPLE_INIT + [A.U_CALC_ACTIVATION]
 
 
 def runner_tasks(tier):
